@@ -57,6 +57,22 @@ ENTRIES = {
              "(private, shared) and checked bitwise per case; shared parameters are taken from sample 0 (holders mixing different single-effect "
              "tables are characterised by C10_load_save_general, not counted as violations unless VERIF_C10_STRICT_SHARED=1: the shipped model "
              "hands the same table to every sample); type guards of combine/concat not modelled."),
+    "C09": dict(
+        text="Theorems (all parameter values, both shipped MCMC sample types, every expit/exp/ln oracle): the vectorised predict / "
+             "predict_single_drug / interaction-sample code is the map of a one-experiment formula, so prediction on any mask subset or index "
+             "list of rows equals the selected entries of the whole-screen prediction; swapping the treatment columns changes nothing; a pair "
+             "with control predicts exactly as the single agent and an all-control row predicts alpha + W0[s] whatever the last embedding row "
+             "(the one index -1 gathers) holds; viability is in [0.01,0.99] and is clip(expit(mean)) for the sparse type; variance is "
+             "1/precision per experiment, positive when precision is; predict_*_all returns one row per sample in holder order and "
+             "predict_*_avg their exact mean. Tied to the code by running the extracted model and the real predict_* functions on screens built "
+             "through batchie.data.Screen (arity 1/2, control by name or dose in either/both columns, subsets, plates, reorderings) within 1e-9, "
+             "plus the property predicates and before/after deep-copy purity checks on the implementation.",
+        note="Trusted: Coq kernel, extraction, OCaml driver with libm oracles, Python harness. Floats abstracted to reals (tolerance 1e-9). "
+             "Purity is checked at run time only. The interaction type's viability is exp(mean + ln(clipped single effects)), not the logistic; "
+             "modelled as coded, stated as C09_inter_viability_not_logistic_refuted (the property text's 'logistic' clause is the sparse type's). "
+             "Index validity is a hypothesis: the sentinel -1 is itself invalid on an embedding with 0 rows. Treatment and sample ids are taken "
+             "from the real Screen (C01's subject). Every run repeats three mutation self-tests (missing zeroing, zeroing the wrong rows, zeroing "
+             "the parameter instead of a copy)."),
 }
 PENDING = "check not built yet in this round; planned in DESIGN.md section 5 (no property is inapplicable in principle)"
 NOT_APPLICABLE = {p: PENDING for p in ["C%02d" % i for i in range(1, 21)] if p not in ENTRIES}
